@@ -56,6 +56,10 @@ TUpdateOk == /\ IsEv("update") /\ Ev.outcome = "ok" /\ Update
 TUpdateFault == /\ IsEv("update") /\ Ev.outcome \in {"KI", "Err"} /\ pc = "update"
                 /\ Fault(Ev.outcome, Ev.at) /\ i = Ev.i
 
+\* faults outside the loop: while the context is being set up (pc = "run") or the solution assembled
+TOuterFault == /\ IsEv("fault") /\ pc = Ev.where /\ Ev.outcome \in {"KI", "Err"}
+               /\ Fault(Ev.outcome, Ev.at)
+
 DiskFrame(f) == [step |-> f.step, time |-> f.time, content |-> f.content, hasrs |-> f.hasrs,
                  rs |-> f.rs, complete |-> f.complete]
 TClose == /\ IsEv("close") /\ Close
@@ -78,7 +82,7 @@ TReturn == /\ IsEv("return") /\ pc \in {"returned", "rejected"}
                           cancelled, err, result, faults, simdts, tdts, flog>>
 
 TNext == \/ TPass \/ TReject \/ TOpen \/ TSaveOk \/ TSaveFault \/ TUpdateOk \/ TUpdateFault
-         \/ TClose \/ TReturn
+         \/ TClose \/ TReturn \/ TOuterFault
          \/ Silent(Run) \/ Silent(Label) \/ Silent(SaveBegin) \/ Silent(Clear) \/ Silent(Stop)
          \/ Silent(Final) \/ Silent(StageEnd) \/ Silent(Assemble)
          \/ (Coarse /\ (Silent(Update) \/ Silent(SaveEnd)))
